@@ -285,7 +285,7 @@ static int run_c08(uint64_t seed, long from, long to, int nbase, bool count_only
     std::vector<std::unique_ptr<Base>> bases; std::vector<long> start; long total = 0;
     for (int b = 0; b < nbase; b++) { Base * B = new Base; bases.emplace_back(B); make_base(seed, b, *B, path); start.push_back(total); total += (long)B->file.size() + 1; }
     if (count_only) { printf("%ld\n", total); return 0; }
-    long sessions = 0, threw = 0, delivered = 0, nonempty = 0, in_band = 0; std::set<long> distinct_counts; std::string sample;
+    long sessions = 0, threw = 0, delivered = 0, nonempty = 0, in_band = 0, tiny = 0; std::set<long> distinct_counts; std::string sample;
     for (long idx = from; idx < to && idx < total; idx++) {
         hc::begin_case(std::to_string(idx));
         int b = 0; while (b + 1 < nbase && start[b + 1] <= idx) b++;
@@ -302,6 +302,7 @@ static int run_c08(uint64_t seed, long from, long to, int nbase, bool count_only
         try {
             File f;
             bool opened = false;
+            if (idx % 3 == 1) { f.verifSetLimits(1 + (uint32_t)(idx / 3) % 3, 64 << ((idx / 9) % 4)); tiny++; }     // workers blocked on full buffers when the input ends early
             try { f.open(path.c_str(), std::ios_base::in); opened = f.is_open(); } catch (Vector::BLF::Exception &) { threw++; }
             if (opened) {
                 size_t i = 0;
@@ -331,7 +332,7 @@ static int run_c08(uint64_t seed, long from, long to, int nbase, bool count_only
         wd::disarm();
     }
     unlink(path.c_str());
-    std::ostringstream o; o << "{\"sessions\":" << sessions << ",\"open_threw\":" << threw << ",\"objects_delivered\":" << delivered << ",\"sessions_with_objects\":" << nonempty << ",\"distinct_outcomes\":" << distinct_counts.size() << ",\"delivered_although_cut_in_skipped_tail\":" << in_band << ",\"bases\":" << nbase << ",\"samples\":[" << hc::jstr(sample) << "]}";
+    std::ostringstream o; o << "{\"sessions\":" << sessions << ",\"sessions_with_tiny_limits\":" << tiny << ",\"open_threw\":" << threw << ",\"objects_delivered\":" << delivered << ",\"sessions_with_objects\":" << nonempty << ",\"distinct_outcomes\":" << distinct_counts.size() << ",\"delivered_although_cut_in_skipped_tail\":" << in_band << ",\"bases\":" << nbase << ",\"samples\":[" << hc::jstr(sample) << "]}";
     hc::stat(o.str());
     return 0;
 }
